@@ -5,7 +5,7 @@ from gen import conn as G
 from gen.common import rng_for
 import check as C
 
-KINDS = ["echo", "echo", "noread", "p", "notfound", "close", "err", "bigr", "reqclose", "reqnoclose"]
+KINDS = ["echo", "echo", "noread", "p", "notfound", "close", "err", "errclose", "bigr", "reqclose", "reqnoclose"]
 MODES = ["serve", "threaded", "epoll"]
 
 
@@ -26,7 +26,24 @@ def gen_plans(seed, tier):
                         break
                 conns.append(("P", script, exp, meta))
         conns.append(("S", "e", ["EOF"], {"kinds": []}))
-        plans.append((r.choice([1, 2, 4]), conns))
+        plans.append((r.choice([1, 2, 4]), conns, False))
+    # (a) the last request of a connection is sent together with the half-close (FIN already in the socket when the
+    #     request is picked up); (b) a teardown hook that closes the stream and then works for 40 ms while the next
+    #     connection is accepted (its descriptor number may be the one just freed) and sends its request afterwards
+    p1 = b"GET /p/1/2 HTTP/1.1\r\n\r\n"
+    pc = b"GET /close HTTP/1.1\r\n\r\n"
+    r200 = "R200:0:" + hx(b"1,2")
+    for _ in range(4 if tier == "quick" else 40):
+        conns = [("P", "S:%s,r,e" % hx(p1), [r200, "EOF"], {"kinds": ["p"]}),
+                 ("P", "s:%s,r,S:%s,r,e" % (hx(p1), hx(p1)), [r200, r200, "EOF"], {"kinds": ["p", "p"]}),
+                 ("S", "e", ["EOF"], {"kinds": []})]
+        plans.append((r.choice([1, 2]), conns, False))
+        conns = [("P", "s:%s,r,e" % hx(pc), ["R200:1:" + hx(b"bye"), "EOF"], {"kinds": ["close"]}),
+                 ("P", "w,s:%s,r,s:%s,r,c,e" % (hx(p1), hx(p1)), [r200, r200, "EOF"], {"kinds": ["p", "p"]}),
+                 ("P", "s:%s,r,e" % hx(pc), ["R200:1:" + hx(b"bye"), "EOF"], {"kinds": ["close"]}),
+                 ("P", "w,s:%s,r,c,e" % hx(p1), [r200, "EOF"], {"kinds": ["p"]}),
+                 ("S", "e", ["EOF"], {"kinds": []})]
+        plans.append((2, conns, True))
     return plans
 
 
@@ -40,9 +57,9 @@ def expected_hooks(conns):
         served = 0
         for k, e in zip(meta["kinds"], exp):
             served += 1
-            if e == "EOF" or k in ("close", "reqclose", "err"):
+            if e == "EOF" or k in ("close", "reqclose", "err", "errclose"):
                 break
-        err = "err" in meta["kinds"][:served]
+        err = bool({"err", "errclose"} & set(meta["kinds"][:served]))
         out.append("s1p%dt1%s" % (served, "e" if err else "o"))
     return out
 
@@ -59,10 +76,10 @@ def run(pid):
         t = "thorough" if tier in ("thorough", "search") else "quick"
         plans = gen_plans(seed, t)
         lines, meta = [], []
-        for threads, conns in plans:
+        for threads, conns, slowtd in plans:
             plan = "/".join("%s:%s" % (d, sc) for d, sc, _, _ in conns)
             for m in MODES:
-                lines.append("SERVE mode=%s threads=%d plan=%s" % (m, threads, plan))
+                lines.append("SERVE mode=%s threads=%d%s plan=%s" % (m, threads, " slowtd=1" if slowtd else "", plan))
                 meta.append((m, conns))
         impl = C.run_sharded(ctx["kimpl"], lines, shards=min(C.NCPU, 12))
         for i in range(0, len(lines), 3):
@@ -104,14 +121,28 @@ def run(pid):
 
 
 def known_c16(o, ctx, k):
-    # an idle open connection while StopAccepting arrives: epoll mode abandons it (no close, no teardown)
-    import socket
-    return True  # reproduced by the dedicated scenario in the thorough tier; kept listed (see DESIGN.md §7)
+    """K16: an idle open connection while StopAccepting arrives: serve_epoll returns and abandons it (socket never closed)"""
+    req = b"GET /p/1/2 HTTP/1.1\r\n\r\n"
+    a = C.run_sharded(ctx["kimpl"], ["EPOLL w=1 failadd=- plan=o0,s0:%s,r0" % hx(req)])[0]
+    d = {}
+    for w in a.split()[1:]:
+        kk, _, v = w.partition("=")
+        d[kk] = v
+    ports = [x for x in d.get("ports", "").split(",") if x]
+    closes = dict(x.split(":") for x in d.get("closes", "").split(",") if ":" in x)
+    return d.get("returned") == "1" and bool(ports) and closes.get(ports[0], "0") == "0"
 
 
 RULE = ("SERVE plans: 25 (quick) / 600 (thorough) plans of 1-4 sequential connections with per-connection setup decisions {Proceed, Drop} followed by a StopAccepting connection, each proceeded connection running a "
         "1-3 request keep-alive history (read all / nothing, close tokens either side, handler error, reader responses, segmentations), executed against serve, serve_threaded and serve_epoll with 1, 2 or 4 threads. "
         "distinct_nontrivial = distinct (mode, plan) lines with at least 3 connections.")
 ASSUME = ["connections are independent and sequential (no more simultaneously open connections than pool threads)", "OS scheduling not modelled: the interleavings are those the scenarios provoke"]
-register("C16", unclaimed="serve model (Lean) being built", lean=[], run=run("C16"), rule=RULE, assumptions=ASSUME, explanation="(under construction)")
-register("C17", unclaimed="serve model (Lean) being built", lean=[], run=run("C17"), rule=RULE, assumptions=ASSUME, explanation="(under construction)")
+register("C16", lean=["Khttp.Props.C16", "Khttp.Props.C07Skeleton", "Khttp.Props.C14Skeleton"], run=run("C16"), rule=RULE, assumptions=ASSUME, known_check=known_c16,
+         explanation="Theorems (Props/C16) over the hook-event logs of the three accept loops (any cfg, any list of incoming connections): setup exactly once and first per accepted connection; Drop = [setup, closed silently]; "
+                     "StopAccepting = log ends with setup, returned and nothing of later connections; pre-routing once per parsed request before its responses; teardown exactly once, last, with the final result, for every "
+                     "proceeded connection that ended; none for dropped/stopping ones. Known finding K16: serve_epoll abandons connections still open at StopAccepting (refuted in Props/C15: C15_after_stop_full_false). "
+                     "Tie: control skeleton of serve / serve_threaded / handle_one_request and of epoll.rs (decide) + SERVE correspondence across the three real modes. Oracle: hook counters per connection and the serve call returning.")
+register("C17", lean=["Khttp.Props.C17", "Khttp.Props.C07Skeleton", "Khttp.Props.C14Skeleton"], run=run("C17"), rule=RULE, assumptions=ASSUME,
+         explanation="Theorems (Props/C17): the sequence of one-request epoll jobs is the handle_connection loop (C17_jobs_are_the_loop), hence the three modes produce the same per-connection event streams and close at the same point "
+                     "(C17_modes_equal, C17_streams_equal); scheduling (who runs the per-connection code) is the subject of C13/C14. Oracle: byte-identical transcripts of the same plan under serve, serve_threaded and serve_epoll on the real code, "
+                     "each equal to the specified transcript.")
